@@ -26,7 +26,8 @@ TICKS = (1e-6, 1e-5, 1e-4, 1e-3, 1e-2)
 def gen_scenario(rng, *, family='well', cyclic=False, init_env=False,
                  max_tasks=9, init_statuses=('DONE', 'DONE', 'FAILED',
                                              'SKIPPED'),
-                 calls=1, start_fault=False, second_graph=False):
+                 calls=1, start_fault=False, second_graph=False,
+                 interrupt=False):
     '''Draw one scheduler scenario.
 
     family: 'well' (ok/raise/FAILED), 'malformed' (adds malformed returns),
@@ -166,6 +167,10 @@ def gen_scenario(rng, *, family='well', cyclic=False, init_env=False,
                 continue
             extra.append([i, j, 'soft' if rng.random() < 0.3 else 'hard'])
         scn['edges2'] = extra
+    if interrupt:
+        # Ctrl-C while the master is at work (at its n-th yield point)
+        scn['interrupt_main_at'] = rng.randrange(1, 40 + 12 * ntask)
+        scn.pop('second_master', None)
     if start_fault:
         # the k-th worker thread cannot be started
         scn['fail_thread_start'] = rng.randrange(1, scn['workers'] + 1)
@@ -398,8 +403,11 @@ def scripted_return(scn, i, status_enum, run_tag='r'):
         return (upd, status_enum.DONE, 'extra') if var % 2 else (upd,)
     if out == 'badstatus':
         # not a TaskStatus at all, or a TaskStatus that is not a final one
+        import numpy
         return upd, pick('DONE', 99, None, 2.5, status_enum.PENDING,
-                         status_enum.WAITING, 0, 3, status_enum.SKIPPED)
+                         status_enum.WAITING, 0, 3, status_enum.SKIPPED,
+                         # a function returning (values, errors)
+                         numpy.array([0.5, 0.25]), [status_enum.DONE])
     if out == 'nonmapping':
         # falsy ones included: "no update" is None, nothing else
         return pick([1, 2], 7, 'update', [('k', 'v')], [], '', 0, (),
@@ -704,6 +712,9 @@ def run_scenario(scn, chooser, *, max_steps=200000):
     sim = core.Sim(chooser, tick=scn['tick'], max_steps=max_steps,
                    line_files=lf, keep_trace=False, wall_limit=WALL_LIMIT)
     sim.fail_thread_start = scn.get('fail_thread_start')
+    sim.interrupt_main_at = scn.get('interrupt_main_at')
+    # while the master submits tasks (not while it starts or stops workers)
+    sim.interrupt_main_in = ('_submit_tasks',)
     holder = {}
 
     def other_master(ntask):
@@ -1152,6 +1163,10 @@ def shrink_candidates(scn):
         new = copy.deepcopy(scn)
         del new['second_master']
         yield new
+    if scn.get('interrupt_main_at'):
+        new = copy.deepcopy(scn)
+        del new['interrupt_main_at']
+        yield new
     if scn.get('fail_thread_start'):
         new = copy.deepcopy(scn)
         del new['fail_thread_start']
@@ -1200,4 +1215,6 @@ def sched_facts(scn, res):
         facts['scenarios-scheduling-twice-on-one-backend'] = 1
     if scn.get('fail_thread_start'):
         facts['fault-configured:thread-start-fails'] = 1
+    if scn.get('interrupt_main_at'):
+        facts['fault-configured:keyboard-interrupt-in-the-main-thread'] = 1
     return facts
